@@ -1,9 +1,10 @@
 CONSTANTS
-  Codec = "quote"
+  Codecs = {"quote"}
   Law = "inv"
-  Alpha = {97, 34, 92}
-  MaxLen = 3
-  MaxItems = 0
+  Alphas <- AlphaInv
+  Lens <- LenInvQ
+  Items <- ItemsInvQ
 INIT Init
-NEXT NoNext
+NEXT Next
+CHECK_DEADLOCK FALSE
 INVARIANT BrokenQuoteOrder
